@@ -1,8 +1,12 @@
 (* C15 — Every RPC is completed exactly once: by its own response or by a timeout.
-   Theorems over ALL histories (lists of the atomic operations Call/AsyncCall, Dispatch, expiry
-   sweep, ReapTimeout — each runs under the client's mutex or on the owner thread, so every
-   interleaving of calls from many goroutines, responses in any order incl. duplicates and unknown
-   numbers, and sweeps at any time is such a list) and ALL positions 0 <= c0 < 65536 of the 16-bit
+   Theorems over ALL histories = lists of the operations Call/AsyncCall, Dispatch, expiry sweep,
+   ReapTimeout, and the two-phase forms of the last two: OStrip / OStripReap (the context is taken
+   out of the table / the expired list under the mutex) and ORun k (its completion — notify +
+   callback — runs later, outside the mutex).  Every access to the client's state is one of these
+   atomic steps, so every interleaving of calls from many goroutines, responses in any order incl.
+   duplicates and unknown numbers, sweeps at any time, and ANY operation landing while a completion
+   is in flight (another dispatcher, the reaper goroutine, a callback calling back into the client)
+   is such a list and ALL positions 0 <= c0 < 65536 of the 16-bit
    sequence counter (so also across its wrap).  [s] below is any reachable state.
    This file holds only the property theorems; each is closed by a lemma of Proofs.v. *)
 From Coq Require Import ZArith List Bool.
@@ -98,6 +102,58 @@ Theorem c15_late_unmatched : forall s now k c r, reachable s ->
 Proof. intros s now k c r R. apply late_spec. apply reachable_Inv. exact R. Qed.
 Print Assumptions c15_late_unmatched.
 
+(* the two-phase forms: what happens under the mutex, and what the completion does later *)
+Theorem c15_strip : forall s r, reachable s ->
+  forall s' x, step s (OStrip r) = (s', x) ->
+  ocomps x = [] /\ expired s' = expired s /\
+  match lookup (rseq r) (pending s) with
+  | Some c => ores x = 0 /\ inflight s' = inflight s ++ [(c, r)] /\
+              lookup (rseq r) (pending s') = None /\
+              (forall k, k <> rseq r -> lookup k (pending s') = lookup k (pending s))
+  | None => ores x = 1 /\ s' = s
+  end.
+Proof. intros s r R. apply strip_spec. apply reachable_Inv. exact R. Qed.
+Print Assumptions c15_strip.
+
+Theorem c15_strip_reap : forall s s' x, step s OStripReap = (s', x) ->
+  ocomps x = [] /\ expired s' = [] /\ pending s' = pending s /\ ores x = Z.of_nat (length (expired s)) /\
+  inflight s' = inflight s ++ map (fun c => (c, errpkt codes_RequestTimeout)) (expired s).
+Proof. exact strip_reap_spec. Qed.
+Print Assumptions c15_strip_reap.
+
+Theorem c15_run : forall s k c r, nth_error (inflight s) k = Some (c, r) ->
+  forall s' x, step s (ORun k) = (s', x) ->
+  ocomps x = [complete c r] /\ pending s' = pending s /\ expired s' = expired s /\ counter s' = counter s /\
+  inflight s' = firstn k (inflight s) ++ skipn (S k) (inflight s).
+Proof. exact run_spec. Qed.
+Print Assumptions c15_run.
+
+(* the atomic Dispatch is exactly "strip, then run" with nothing in between *)
+Theorem c15_dispatch_two_phase : forall s r c, lookup (rseq r) (pending s) = Some c ->
+  forall s1 x1 s2 x2,
+  step s (OStrip r) = (s1, x1) -> step s1 (ORun (length (inflight s))) = (s2, x2) ->
+  step s (ODispatch r) = (s2, mkout 0 0 (ocomps x1 ++ ocomps x2)).
+Proof. exact dispatch_two_phase. Qed.
+Print Assumptions c15_dispatch_two_phase.
+
+(* EXACTLY once, over every history of coarse and two-phase operations: at any moment the calls
+   made so far (0 .. ncalls-1) are, as a multiset, the calls still to be completed (in the table,
+   on the expired list, or stripped with the completion still to run) plus the completed ones *)
+Theorem c15_exactly_once : forall c0 ops, u16 c0 ->
+  Permutation.Permutation
+    (live (fst (run (init c0) ops)) ++ map kcid (completions (snd (run (init c0) ops))))
+    (ids (ncalls (fst (run (init c0) ops)))).
+Proof. exact exactly_once_accounting. Qed.
+Print Assumptions c15_exactly_once.
+
+(* ... so once nothing is outstanding every call has been completed exactly once *)
+Theorem c15_all_completed_once : forall c0 ops, u16 c0 ->
+  let s := fst (run (init c0) ops) in
+  pending s = [] -> expired s = [] -> inflight s = [] ->
+  Permutation.Permutation (map kcid (completions (snd (run (init c0) ops)))) (ids (ncalls s)).
+Proof. exact all_completed_once. Qed.
+Print Assumptions c15_all_completed_once.
+
 (* over any history no call is completed twice *)
 Theorem c15_at_most_once : forall c0 ops, u16 c0 ->
   NoDup (map kcid (completions (snd (run (init c0) ops)))).
@@ -118,6 +174,15 @@ Example c15_example :
   map ores (snd (run (init 65534) ex_ops)) = [0; 0; 0; 0; 0; 1; 1] /\
   keys (pending (fst (run (init 65534) ex_ops))) = [2].
 Proof. vm_compute. repeat split. Qed.
+
+(* a duplicate of response 7 and a sweep land between the strip and the completion of call 0:
+   the duplicate is unmatched, the sweep cannot touch the stripped call, it is completed once *)
+Definition ex_ops2 : list op :=
+  [OCall false 60000; OStrip (mkresp 1 7 0 true); ODispatch (mkresp 1 70 0 true); OSweep 100000; OReap; ORun 0].
+Example c15_example_two_phase :
+  completions (snd (run (init 0) ex_ops2)) = [mkcomp 0 1 0 7] /\
+  map ores (snd (run (init 0) ex_ops2)) = [0; 0; 1; 0; 0; 0].
+Proof. vm_compute. split; reflexivity. Qed.
 
 Example c15_example_reachable : reachable (fst (run (init 65534) ex_ops)).
 Proof. exists 65534, ex_ops. split; [unfold u16; split; [discriminate | reflexivity] | reflexivity]. Qed.
